@@ -92,6 +92,9 @@ func (r *FnRun) relyHolds(st *State, md *MonoDecl, p PtrVal, key string, nv Term
 		unsup("rely: cannot find owner type of %s", p.Root)
 	}
 	env := &specEnv{st: st, old: st, vars: map[string]Val{"self": owner, "v": nv}, pkg: pkg, what: "rely of " + key}
+	if r.guarMode {
+		return r.evalBool(md.Guar, env)
+	}
 	return r.evalBool(md.Rely, env)
 }
 
@@ -233,7 +236,10 @@ func (r *FnRun) atomicWriteCheckCond(st *State, p PtrVal, cond Term, nv Val, whe
 	cur := r.load(st, p, where).(Term)
 	r.oblige("MONOTONE", where, Imp(cond, Ge(nv.(Term), cur)), st)
 	if md.Rely != nil {
-		r.oblige("MONOTONE", where+":rely", Imp(cond, r.relyHolds(st, md, p, key, nv.(Term), pkg)), st)
+		r.guarMode = true
+		g := r.relyHolds(st, md, p, key, nv.(Term), pkg)
+		r.guarMode = false
+		r.oblige("MONOTONE", where+":guarantee", Imp(cond, g), st)
 	}
 }
 
